@@ -119,6 +119,16 @@ def run(ck):
                     adm = [n for n in res_len if admits(conds, n)]
                     if not conds or adm: bad3.setdefault(f'single-label NO without comparing reserved[]; short-cut admits reserved lengths {adm}', p.text()[-6:])
                 continue
+            # a guard on a search that cannot fail: after the counting loop found at least one dot (and that many are still
+            # ahead of the cursor), strchr(_, '.') == NULL followed at once by return NO never fires (same invariant as C06 `counted`)
+            ev_ = p.events
+            if len(ev_) >= 2 and ev_[-1][0] == 'return' and ev_[-2][0] == 'cond':
+                g = re.fullmatch(r"\(?(strchr#\d+'*)(?: == NULL)?\)?", ev_[-2][1])
+                dead = g and ((ev_[-2][2] is False and '==' not in ev_[-2][1]) or (ev_[-2][2] is True and '==' in ev_[-2][1]))
+                if dead:
+                    cs_ = [c for c in p.calls('strchr') if c[3] == g.group(1)]
+                    counted_first = any(c[2][1] == "'.'" and p.passed(c[3], True) for c in p.calls('strchr')[:1])
+                    if cs_ and cs_[0][2][1] == "'.'" and cs_[0] is not p.calls('strchr')[0] and counted_first: continue
             ok = False; why = 'NO without examining the last label (the verdict rests on another label)'
             for P in P_last:
                 conds = len_atoms(p, P)
